@@ -70,7 +70,7 @@ def lex_body(body):
         if c.isalpha():
             kw = next((w for w in KEYWORDS if body.startswith(w, pos)), None)
             if kw:
-                toks.append(tok("kw", kw))
+                toks.append(tok("kw", kw, s=kw.encode("latin-1")))
                 pos += len(kw)
                 if kw == "REM":
                     toks.append(tok("raw", "", s=body[pos:].encode("latin-1", "replace")))
